@@ -806,3 +806,291 @@ Proof.
   rewrite Hm. replace (acc ++ x :: l) with ((acc ++ [x]) ++ l) in * by (rewrite <- app_assoc; reflexivity).
   apply IH; assumption.
 Qed.
+
+(* ================= server -> client: ResponseWriter output parsed by the response parser ================= *)
+
+Section AnyMessage.
+  Variable typed_other : N -> bytes -> option err.
+  Variable set_cookie : bytes -> option (bytes * bytes).
+
+  (* a message = first line, header lines, blank line, body; the first line is any text the line step settles on *)
+  Theorem message_parses_back k first feffs ls body :
+    (forall rest, line_step k (first ++ rest) = ASettled FNext (length first) feffs) ->
+    Forall (ok_line typed_other set_cookie) ls ->
+    let m := apply msg_init (feffs ++ flat_map snd ls) in
+    m_body m = [] -> body_framed m body ->
+    let text := first ++ flat_map (fun l => header_line (fst l)) ls ++ crlf ++ body in
+    exists st, whole typed_other set_cookie k text = (PDone, st) /\ p_msg st = set_body m body /\ p_cur st = length text.
+  Proof.
+    intros Hfirst Hl m Hb0 [Hte Hcl] text.
+    unfold whole, feed_raw, pstate_init. cbn [p_step p_buf p_cur p_msg p_bs app].
+    rewrite (parse0_settled typed_other set_cookie k _ 0 msg_init bstate_init (length first) feffs) by (cbn [skipn]; apply Hfirst).
+    rewrite (parse1_settled typed_other set_cookie _ _ _ _ (length (flat_map (fun l => header_line (fst l)) ls) + 2) (flat_map snd ls)).
+    2:{ cbn [Nat.add]. unfold text. rewrite skipn_len_app. apply headers_parse. exact Hl. }
+    rewrite <- apply_app. fold m.
+    unfold parse2. cbn [p_msg p_bs p_buf p_cur Nat.add].
+    assert (Hskip : skipn (length first + (length (flat_map (fun l => header_line (fst l)) ls) + 2)) text = body).
+    { unfold text. rewrite app_assoc, app_assoc.
+      replace (length first + (length (flat_map (fun l => header_line (fst l)) ls) + 2))
+        with (length ((first ++ flat_map (fun l => header_line (fst l)) ls) ++ crlf)) by (rewrite !app_length; cbn; lia).
+      apply skipn_len_app. }
+    rewrite Hskip. unfold body_step. rewrite Hte.
+    assert (Hlen : length text = length first + (length (flat_map (fun l => header_line (fst l)) ls) + 2) + length body).
+    { unfold text. rewrite !app_length. cbn. lia. }
+    destruct body as [|b0 body'].
+    - destruct Hcl as [Hnone | [c [Hc Hv]]].
+      + rewrite Hnone. eexists. split; [reflexivity|]. cbn [p_msg p_cur]. rewrite Hb0. split; [reflexivity|]. rewrite Hlen. cbn. lia.
+      + rewrite Hc. unfold body_cl. rewrite Hv. cbn [bstate_init b_read length N.of_nat].
+        replace (0 <? 0)%N with false by reflexivity.
+        eexists. split; [reflexivity|]. cbn [p_msg p_cur]. rewrite Hb0. cbn. split; [reflexivity|]. rewrite Hlen. cbn. lia.
+    - destruct Hcl as [c [Hc Hv]]. rewrite Hc. unfold body_cl. rewrite Hv. cbn [bstate_init b_read].
+      replace (0 <? 0)%N with false by reflexivity. rewrite N.ltb_irrefl. rewrite Nat2N.id, firstn_all.
+      eexists. split; [reflexivity|]. cbn [p_msg p_cur]. rewrite Hb0. cbn [app]. split; [reflexivity|]. rewrite Hlen. lia.
+  Qed.
+End AnyMessage.
+
+(* ---------------- status line ---------------- *)
+
+Notation rsrun := (arun rs eff fin rs_delta rs_final).
+
+Lemma rs_version acc n rest :
+  rsrun (RS_Ver []) acc n (list_of_string "HTTP/1.1 " ++ rest) = rsrun (RS_Code []) acc (n + 9) rest.
+Proof.
+  cbn [list_of_string app].
+  repeat (rewrite arun_cons by reflexivity; cbn [rs_delta fst snd length Nat.ltb Nat.leb]; rewrite ?app_nil_r).
+  cbn. f_equal. lia.
+Qed.
+
+Lemma rs_code_scan w racc acc n rest : Forall (okc [" "%char]) w ->
+  rsrun (RS_Code racc) acc n (w ++ rest) = rsrun (RS_Code (rev w ++ racc)) acc (n + length w) rest.
+Proof.
+  apply (arun_scan _ _ _ rs_delta rs_final RS_Code); [reflexivity|].
+  intros r c H. cbn [rs_delta]. rewrite (Forall_inv H). reflexivity.
+Qed.
+
+Lemma rs_reason : forall w b acc n rest, Forall (okc [c_lf]) w ->
+  rsrun (RS_Reason b) acc n (w ++ c_cr :: c_lf :: rest) = ASettled FNext (n + length w + 2) acc.
+Proof.
+  induction w as [|c w IH]; intros b acc n rest H.
+  - cbn [app]. rewrite arun_cons by reflexivity. cbn [rs_delta].
+    replace (ascii_eqb c_cr c_lf) with false by reflexivity. rewrite andb_false_r. cbn [fst snd].
+    rewrite arun_cons by reflexivity. cbn [rs_delta]. replace (ascii_eqb c_cr c_cr) with true by reflexivity.
+    replace (ascii_eqb c_lf c_lf) with true by reflexivity. cbn [andb fst snd]. rewrite !app_nil_r.
+    rewrite arun_final with (f := FNext) by reflexivity. f_equal. cbn. lia.
+  - cbn [app]. rewrite arun_cons by reflexivity. cbn [rs_delta]. rewrite (Forall_inv (Forall_inv H)), andb_false_r. cbn [fst snd].
+    rewrite app_nil_r. rewrite IH by exact (Forall_inv_tail H). f_equal. cbn [length]. lia.
+Qed.
+
+Lemma reason_lacks_lf code : Forall (okc [c_lf]) (reason_of code).
+Proof.
+  assert (T : forallb (fun e : N * string * string => forallb (fun c => negb (ascii_eqb c c_lf)) (list_of_string (snd e))) status_codes = true)
+    by (vm_compute; reflexivity).
+  unfold reason_of. destruct (find _ status_codes) as [e|] eqn:E; [|constructor].
+  apply find_some in E. destruct E as [Hin _]. rewrite forallb_forall in T. specialize (T e Hin).
+  rewrite forallb_forall in T. apply Forall_forall. intros c Hc. constructor; [|constructor].
+  specialize (T c Hc). destruct (ascii_eqb c c_lf); [discriminate|reflexivity].
+Qed.
+
+Lemma digits_not_space n : Forall (okc [" "%char]) (print_dec n).
+Proof.
+  destruct (print_dec_spec n) as [_ [Hall _]]. eapply Forall_impl; [|exact Hall].
+  intros c [d Hd]. constructor; [|constructor]. apply (digit_not_special c d Hd).
+Qed.
+
+Lemma wrap_small z : (0 <= z < 2147483648)%Z -> wrap_int32 z = z.
+Proof. intros H. unfold wrap_int32. rewrite Z.mod_small by lia. lia. Qed.
+
+Lemma status_line_parses code rest : (code < 2147483648)%N ->
+  line_step KResponse (status_line code ++ rest) = ASettled FNext (length (status_line code)) [SetCode (Z.of_N code)].
+Proof.
+  intros Hc. unfold line_step, status_line. rewrite <- !app_assoc. rewrite rs_version.
+  rewrite rs_code_scan by apply digits_not_space. rewrite app_nil_r. cbn [app].
+  rewrite arun_cons by reflexivity. cbn [rs_delta]. replace (ascii_eqb " " " ") with true by reflexivity.
+  rewrite rev_involutive. rewrite strtol_print_dec by (unfold LONG_MAX; lia). cbn [fst snd app].
+  rewrite wrap_small by lia. unfold crlf. rewrite <- app_assoc. cbn [app].
+  rewrite rs_reason by apply reason_lacks_lf. f_equal.
+  rewrite !app_length. cbn [length list_of_string]. rewrite !app_length. cbn [length]. lia.
+Qed.
+
+(* ---------------- what ResponseWriter::putOnWire writes ---------------- *)
+
+Section Server.
+  Variable typed_other : N -> bytes -> option err.
+  Variable set_cookie : bytes -> option (bytes * bytes).
+  Notation process := (process_header typed_other set_cookie).
+
+  (* a Set-Cookie value the cookie parser reads as (name, value) *)
+  Definition cookie_ok (c : bytes) (kv : bytes * bytes) : Prop := wf_value c /\ set_cookie c = Some kv.
+
+  Lemma process_set_cookie c kv : set_cookie c = Some kv ->
+    process (list_of_string "Set-Cookie") c = (H_LineStart, [AddCookie (fst kv) (snd kv); AddRaw (list_of_string "Set-Cookie") c]).
+  Proof.
+    intros H. unfold process_header.
+    replace (bytes_eqb (lower_bytes (list_of_string "Set-Cookie")) (list_of_string "cookie")) with false by (vm_compute; reflexivity).
+    replace (bytes_eqb (lower_bytes (list_of_string "Set-Cookie")) (list_of_string "set-cookie")) with true by (vm_compute; reflexivity).
+    rewrite H. destruct kv. reflexivity.
+  Qed.
+
+  Definition set_cookie_line (ck : bytes * (bytes * bytes)) : (bytes * bytes) * list eff :=
+    ((list_of_string "Set-Cookie", fst ck), [AddCookie (fst (snd ck)) (snd (snd ck)); AddRaw (list_of_string "Set-Cookie") (fst ck)]).
+
+  Definition server_lines (hs : list (bytes * bytes)) (cks : list (bytes * (bytes * bytes))) (body : bytes) : list ((bytes * bytes) * list eff) :=
+    map plain_line hs ++ map set_cookie_line cks ++ [typed_line "Content-Length" (print_dec (N.of_nat (length body)))].
+
+  Lemma render_response_is_text code hs cks body :
+    render_response code hs (map fst cks) body
+    = status_line code ++ flat_map (fun l => header_line (fst l)) (server_lines hs cks body) ++ crlf ++ body.
+  Proof.
+    unfold render_response, server_lines. rewrite !flat_map_app, plain_lines_text.
+    f_equal. rewrite <- !app_assoc. f_equal.
+    assert (E : flat_map (fun c => list_of_string "Set-Cookie: " ++ c ++ crlf) (map fst cks)
+                = flat_map (fun l : (bytes * bytes) * list eff => header_line (fst l)) (map set_cookie_line cks)).
+    { induction cks as [|ck l IH]; [reflexivity|]. cbn [map flat_map set_cookie_line fst]. rewrite IH.
+      unfold header_line. cbn [fst snd list_of_string app]. reflexivity. }
+    rewrite E. f_equal.
+    cbn [flat_map typed_line fst]. unfold header_line. cbn [fst snd list_of_string app]. rewrite app_nil_r.
+    rewrite <- !app_assoc. reflexivity.
+  Qed.
+
+  Lemma server_lines_ok hs cks body :
+    Forall plain_header hs -> Forall (fun ck => cookie_ok (fst ck) (snd ck)) cks ->
+    (N.of_nat (length body) <= 18446744073709551615)%N ->
+    Forall (ok_line typed_other set_cookie) (server_lines hs cks body).
+  Proof.
+    intros Hhs Hck Hlen. unfold server_lines. apply Forall_app. split; [|apply Forall_app; split].
+    - rewrite Forall_map. eapply Forall_impl; [|exact Hhs]. intros h [H1 [H2 [H3 H4]]].
+      split; [exact H1|]. split; [exact H2|]. apply process_plain; assumption.
+    - rewrite Forall_map. eapply Forall_impl; [|exact Hck]. intros [c kv] [Hv Hs]. cbn [fst snd] in *.
+      split; [split; [discriminate|repeat constructor]|]. split; [exact Hv|]. cbn [set_cookie_line fst snd]. apply process_set_cookie. exact Hs.
+    - constructor; [|constructor].
+      split; [split; [discriminate|repeat constructor]|]. split; [apply print_dec_wf|].
+      apply process_typed; [split; vm_compute; reflexivity|vm_compute; reflexivity|].
+      unfold typed_check. replace (match id_content_length with Some i => (i =? idx "Content-Length")%N | None => false end) with true by (vm_compute; reflexivity).
+      unfold cl_check. pose proof (stoull_print_dec (N.of_nat (length body)) [] Hlen I) as E. rewrite app_nil_r in E. rewrite E. reflexivity.
+  Qed.
+  Lemma untyped_server_prefix hs cks : forallb untyped (flat_map snd (map plain_line hs ++ map set_cookie_line cks)) = true.
+  Proof.
+    rewrite flat_map_app, forallb_app. apply andb_true_iff. split.
+    - induction hs as [|h l IH]; [reflexivity|]. cbn [map flat_map plain_line snd app forallb untyped andb]. exact IH.
+    - induction cks as [|c l IH]; [reflexivity|]. cbn [map flat_map set_cookie_line snd app forallb untyped andb]. exact IH.
+  Qed.
+
+  Lemma server_typed code hs cks body :
+    m_typed (apply msg_init ([SetCode (Z.of_N code)] ++ flat_map snd (server_lines hs cks body)))
+    = [(idx "Content-Length", print_dec (N.of_nat (length body)))].
+  Proof.
+    rewrite apply_typed_only_effs. cbn [m_typed msg_init]. unfold server_lines.
+    rewrite app_assoc, flat_map_app, app_assoc, map_app, capply_app.
+    rewrite (capply_untyped ([SetCode (Z.of_N code)] ++ flat_map snd (map plain_line hs ++ map set_cookie_line cks)))
+      by (rewrite forallb_app, untyped_server_prefix; reflexivity).
+    reflexivity.
+  Qed.
+
+  Lemma server_body_framed code hs cks body : (N.of_nat (length body) <= 18446744073709551615)%N ->
+    body_framed (apply msg_init ([SetCode (Z.of_N code)] ++ flat_map snd (server_lines hs cks body))) body.
+  Proof.
+    intros Hlen. unfold body_framed, typed_get. rewrite server_typed.
+    replace id_transfer_encoding with (Some (idx "Transfer-Encoding")) by (vm_compute; reflexivity).
+    replace id_content_length with (Some (idx "Content-Length")) by (vm_compute; reflexivity).
+    cbn [find fst snd].
+    replace (idx "Content-Length" =? idx "Transfer-Encoding")%N with false by (vm_compute; reflexivity).
+    rewrite N.eqb_refl. cbn [snd].
+    assert (Hv : cl_value (print_dec (N.of_nat (length body))) = N.of_nat (length body)).
+    { unfold cl_value. pose proof (stoull_print_dec (N.of_nat (length body)) [] Hlen I) as E. rewrite app_nil_r in E. rewrite E. reflexivity. }
+    split; [reflexivity|]. destruct body as [|b0 body'].
+    - right. eexists. split; [reflexivity|]. exact Hv.
+    - eexists. split; [reflexivity|]. exact Hv.
+  Qed.
+
+  (* ---- C02, server -> client (fixed-length responses) ---- *)
+  Theorem server_response_roundtrip code hs cks body :
+    (code < 2147483648)%N -> Forall plain_header hs -> Forall (fun ck => cookie_ok (fst ck) (snd ck)) cks ->
+    (N.of_nat (length body) <= 18446744073709551615)%N ->
+    exists st,
+      whole typed_other set_cookie KResponse (render_response code hs (map fst cks) body) = (PDone, st)
+      /\ p_cur st = length (render_response code hs (map fst cks) body)
+      /\ p_msg st = set_body (apply msg_init ([SetCode (Z.of_N code)] ++ flat_map snd (server_lines hs cks body))) body.
+  Proof.
+    intros Hc Hhs Hck Hlen. rewrite render_response_is_text.
+    destruct (message_parses_back typed_other set_cookie KResponse (status_line code) [SetCode (Z.of_N code)] (server_lines hs cks body) body)
+      as [st [H1 [H2 H3]]].
+    - intros rest. apply status_line_parses. exact Hc.
+    - apply server_lines_ok; assumption.
+    - rewrite apply_body. reflexivity.
+    - apply server_body_framed. exact Hlen.
+    - exists st. repeat split; assumption.
+  Qed.
+End Server.
+
+Section ResponseFields.
+  Variable code : N.
+  Variable body : bytes.
+  Variable hs : list (bytes * bytes).
+  Variable cks : list (bytes * (bytes * bytes)).
+  Let effs := [SetCode (Z.of_N code)] ++ flat_map snd (server_lines hs cks body).
+  Let m := apply msg_init effs.
+
+  Definition sc_effs (ck : bytes * (bytes * bytes)) : list eff := snd (set_cookie_line ck).
+
+  Lemma server_effs_split : effs =
+    [SetCode (Z.of_N code)] ++ flat_map snd (map plain_line hs) ++ flat_map sc_effs cks
+    ++ [AddTyped (idx "Content-Length") (print_dec (N.of_nat (length body)));
+        AddRaw (list_of_string "Content-Length") (print_dec (N.of_nat (length body)))].
+  Proof.
+    unfold effs, server_lines. rewrite !flat_map_app. cbn [flat_map typed_line snd app]. repeat f_equal.
+    induction cks as [|c l IH]; [reflexivity|]. cbn [map flat_map]. rewrite IH. reflexivity.
+  Qed.
+
+  Lemma response_cookies : m_cookies m = capply _ same_pair [] (map (fun ck : bytes * (bytes * bytes) => CIns (snd ck)) cks).
+  Proof.
+    unfold m. rewrite (apply_proj _ m_cookies (fun x e => capply1 _ same_pair x (v_cookies e))) by reflexivity.
+    rewrite <- (fold_left_map (capply1 _ same_pair) v_cookies). fold (capply _ same_pair (m_cookies msg_init) (map v_cookies effs)).
+    rewrite capply_view, server_effs_split. rewrite !flat_map_app.
+    rewrite (keep_plain_none v_cookies) by reflexivity. cbn [flat_map keep v_cookies app msg_init m_cookies].
+    rewrite app_nil_r. f_equal.
+    induction cks as [|[c [k v]] l IH]; [reflexivity|]. cbn [flat_map sc_effs set_cookie_line snd fst app map]. rewrite IH. reflexivity.
+  Qed.
+
+  Lemma response_raw : m_raw m = capply _ same_ci []
+    (map (fun h : bytes * bytes => CIns h)
+         (hs ++ map (fun ck : bytes * (bytes * bytes) => (list_of_string "Set-Cookie", fst ck)) cks
+          ++ [(list_of_string "Content-Length", print_dec (N.of_nat (length body)))])).
+  Proof.
+    unfold m. rewrite (apply_proj _ m_raw (fun x e => capply1 _ same_ci x (v_raw e))) by reflexivity.
+    rewrite <- (fold_left_map (capply1 _ same_ci) v_raw). fold (capply _ same_ci (m_raw msg_init) (map v_raw effs)).
+    rewrite capply_view, server_effs_split. rewrite !flat_map_app.
+    rewrite keep_plain_raw. cbn [flat_map keep v_raw app msg_init m_raw]. rewrite !map_app. f_equal. f_equal.
+    f_equal.
+    induction cks as [|[c [k v]] l IH]; [reflexivity|]. cbn [flat_map sc_effs set_cookie_line snd fst app map keep v_raw]. rewrite IH. reflexivity.
+  Qed.
+
+  Lemma response_code : m_code m = Z.of_N code.
+  Proof.
+    unfold m. rewrite (apply_proj _ m_code (fun x e => rapply1 _ x (v_code e))) by reflexivity. rewrite server_effs_split.
+    rewrite !fold_left_app. cbn [fold_left rapply1 v_code].
+    rewrite (fold_nop v_code (flat_map sc_effs cks)).
+    2:{ induction cks as [|c l IH]; [constructor|]. cbn [flat_map sc_effs set_cookie_line snd app]. constructor; [reflexivity|]. constructor; [reflexivity|exact IH]. }
+    rewrite (fold_nop v_code (flat_map snd (map plain_line hs))) by (apply nop_plain; reflexivity).
+    reflexivity.
+  Qed.
+End ResponseFields.
+
+Theorem server_response_fields typed_other set_cookie code hs cks body :
+  (code < 2147483648)%N -> Forall plain_header hs -> Forall (fun ck => cookie_ok set_cookie (fst ck) (snd ck)) cks ->
+  (N.of_nat (length body) <= 18446744073709551615)%N ->
+  exists st,
+    whole typed_other set_cookie KResponse (render_response code hs (map fst cks) body) = (PDone, st)
+    /\ p_cur st = length (render_response code hs (map fst cks) body)
+    /\ m_code (p_msg st) = Z.of_N code
+    /\ m_cookies (p_msg st) = capply _ same_pair [] (map (fun ck : bytes * (bytes * bytes) => CIns (snd ck)) cks)
+    /\ m_raw (p_msg st) = capply _ same_ci []
+         (map (fun h : bytes * bytes => CIns h)
+              (hs ++ map (fun ck : bytes * (bytes * bytes) => (list_of_string "Set-Cookie", fst ck)) cks
+               ++ [(list_of_string "Content-Length", print_dec (N.of_nat (length body)))]))
+    /\ m_body (p_msg st) = body.
+Proof.
+  intros Hc Hhs Hck Hlen.
+  destruct (server_response_roundtrip typed_other set_cookie code hs cks body Hc Hhs Hck Hlen) as [st [H1 [H2 H3]]].
+  exists st. split; [exact H1|]. split; [exact H2|]. rewrite H3. unfold set_body. cbn [m_code m_cookies m_raw m_body].
+  repeat split; [apply response_code|apply response_cookies|apply response_raw].
+Qed.
